@@ -142,11 +142,12 @@ Proof.
 Qed.
 
 (* map[T]struct{} sets, for every iteration order *)
-Theorem union_map_spec ord l kvs that ks2 : (forall ks, Permutation (ord ks) ks) ->
-  map_keys that = Some ks2 -> Forall keyable (map fst kvs) -> Forall keyable ks2 -> pw_ne go_eqeq (map fst kvs) ->
-  exists K, union_map_m ord (VMap l kvs) that = Ok (VMap l (unit_entries K))
+Theorem union_map_spec fl ord this that ks1 ks2 : (forall ks, Permutation (ord ks) ks) ->
+  map_keys this = Some ks1 -> map_keys that = Some ks2 ->
+  Forall keyable ks1 -> Forall keyable ks2 -> pw_ne go_eqeq ks1 ->
+  exists K, union_map_m fl ord this that = Ok (VMap (map_label fl this) (unit_entries K))
     /\ pw_ne go_eqeq K
-    /\ (forall z, keyable z -> mem go_eqeq z K = mem go_eqeq z (map fst kvs) || mem go_eqeq z ks2).
+    /\ (forall z, keyable z -> mem go_eqeq z K = mem go_eqeq z ks1 || mem go_eqeq z ks2).
 Proof. apply union_map_m_spec. Qed.
 
 Theorem intersect_map_spec fl ord this that ks1 ks2 : (forall ks, Permutation (ord ks) ks) ->
@@ -156,10 +157,12 @@ Theorem intersect_map_spec fl ord this that ks1 ks2 : (forall ks, Permutation (o
     /\ (forall z, keyable z -> mem go_eqeq z K = mem go_eqeq z ks1 && mem go_eqeq z ks2).
 Proof. apply intersect_map_m_spec. Qed.
 
-(* the open finding: Union writes into its first map, so a nil first map panics *)
-Theorem union_map_nil_refuted :
-  union_map_m (fun ks => ks) VNilM (VMap 1 (unit_entries [VInt 1%Z])) = Pan.
-Proof. reflexivity. Qed.
+(* the pinned tree before fix C14-fix-union-nil-map: Union wrote into its first map even when
+   that was nil, so the union of the empty set (a nil map) with {1} panicked *)
+Theorem union_map_nil_old_refuted :
+  union_map_old_m 0 (fun ks => ks) VNilM (VMap 1 (unit_entries [VInt 1%Z])) = Pan
+  /\ union_map_m 0 (fun ks => ks) VNilM (VMap 1 (unit_entries [VInt 1%Z])) = Ok (VMap 0 (unit_entries [VInt 1%Z])).
+Proof. split; reflexivity. Qed.
 
 (* ---------- non-vacuity ---------- *)
 Definition t_sl : ty := TSl (TB (KInt 64 true)).          (* element type []int: not ==-comparable *)
